@@ -242,5 +242,73 @@ theorem sqrt_four (hs : SqrtSpec K) : RealFns.sqrt (4 : K) = 2 := by
   · linarith
   · linarith
 
+
+/-! ### from_to with the rounding-level antiparallel test (fixes/C20-from-to-nearly-antiparallel.diff) -/
+
+theorem fromToUnitTau_unfold (tau : K) (anti : V3 K → Quat K) (f t : V3 K) :
+    fromToUnitTau tau anti f t =
+      if 0 ≤ dot f t then fromToReduced f t
+      else if len2 (cross f t) < tau ∨ len2 (normalize (vadd f t)) = 0 then anti f
+      else qmul (fromToReduced f (normalize (vadd f t))) (fromToReduced (normalize (vadd f t)) t) := by
+  by_cases h1 : 0 ≤ dot f t
+  · have : ScalarR.le (Scalar.zero : K) (dot f t) = true := by simpa using h1
+    simp only [fromToUnitTau, this, if_true, h1]
+  · have e1 : ScalarR.le (Scalar.zero : K) (dot f t) = false := by simpa using h1
+    have hv : (⟨f.x + t.x, f.y + t.y, f.z + t.z⟩ : V3 K) = vadd f t := rfl
+    simp only [fromToUnitTau, e1, h1, if_false, hv, r_lt, r_isnormal, Bool.false_eq_true]
+    by_cases h2 : len2 (cross f t) < tau ∨ len2 (normalize (vadd f t)) = 0
+    · rw [if_pos h2]
+      rcases h2 with h2 | h2
+      · simp [h2]
+      · simp [h2]
+    · rw [if_neg h2]
+      push Not at h2
+      have a1 : ¬ (len2 (cross f t) < tau) := not_lt.mpr h2.1
+      simp [a1, h2.2]
+
+/-- outside the rounding-level band the patched constructor is the repaired one -/
+theorem fromToUnitTau_eq (tau : K) (anti : V3 K → Quat K) (f t : V3 K) (h : ¬ (len2 (cross f t) < tau) ∨ 0 ≤ dot f t) :
+    fromToUnitTau tau anti f t = fromToUnit anti f t := by
+  rw [fromToUnitTau_unfold]
+  by_cases h1 : 0 ≤ dot f t
+  · rw [if_pos h1, fromToUnit_acute anti f t h1]
+  · rw [if_neg h1]
+    have hc : ¬ (len2 (cross f t) < tau) := by
+      rcases h with h | h
+      · exact h
+      · exact absurd h h1
+    have hd : dot f t < 0 := not_le.mp h1
+    by_cases h2 : len2 (normalize (vadd f t)) = 0
+    · rw [if_pos (Or.inr h2), fromToUnit_anti anti f t hd h2]
+    · rw [if_neg (by push Not; exact ⟨not_lt.mp hc, h2⟩), fromToUnit_two_stage anti f t hd h2]
+
+/-- inside the band (obtuse unit vectors with `|f × t|² < tau`): a unit quaternion turning `f` into `−f`,
+    which is within `√(2 tau)` of `t`:  `|(−f) − t|² = |f + t|² ≤ 2 |f × t|² < 2 tau` -/
+theorem fromToUnitTau_band (hs : SqrtSpec K) (tau : K) (f t : V3 K) (hf : len2 f = 1) (ht : len2 t = 1)
+    (hd : dot f t < 0) (hb : len2 (cross f t) < tau) :
+    qlen2 (fromToUnitTau tau antiparallelFixed f t) = 1 ∧
+    rotate f (fromToUnitTau tau antiparallelFixed f t) = vmul f (-1) ∧
+    len2 (V3.sub (rotate f (fromToUnitTau tau antiparallelFixed f t)) t) < 2 * tau := by
+  rw [fromToUnitTau_unfold, if_neg (not_le.mpr hd), if_pos (Or.inl hb)]
+  obtain ⟨a, b⟩ := antiFixed_spec hs f hf
+  refine ⟨a, b, ?_⟩
+  rw [b]
+  have hc := len2_cross f t
+  rw [hf, ht] at hc
+  have e : len2 (V3.sub (vmul f (-1)) t) = 2 + 2 * dot f t := by
+    simp only [len2, dot, V3.sub, vmul, sc_hadd, sc_hsub, sc_hmul] at hf ht ⊢
+    linear_combination hf + ht
+  rw [e]
+  -- 1 - d^2 < tau, d < 0  ⟹  2 (1 + d) < 2 tau
+  have h1 : (1 + dot f t) * (1 - dot f t) < tau := by
+    have : (1 + dot f t) * (1 - dot f t) = len2 (cross f t) := by rw [hc]; ring
+    rw [this]; exact hb
+  have hdm : -1 ≤ dot f t := by
+    -- |f + t|² ≥ 0
+    have := len2_nonneg (vadd f t)
+    rw [len2_vadd, hf, ht] at this
+    linarith
+  nlinarith [h1, hd, hdm]
+
 end
 end RV.Rot
